@@ -26,6 +26,7 @@ from nix_manipulator.expressions.scope import ScopeLayer, ScopeState
 from nix_manipulator.expressions.set import _AttrpathEntry
 from nix_manipulator.parser import parse
 from nix_manipulator.resolution import (
+    function_parameter_scope,
     scopes_for_owner,
     set_resolution_context,
 )
@@ -157,11 +158,16 @@ def _resolve_target_set_from_expr(
             output = target.output
             if output is None:
                 raise ValueError("Unexpected function output type")
+            # The parameters bound by the lambda head shadow enclosing scopes.
+            body_scopes = scope_chain
+            parameters = function_parameter_scope(target)
+            if parameters is not None:
+                body_scopes = tuple(scope_chain or ()) + (parameters,)
             if isinstance(output, AttributeSet):
-                _inherit(output, scope_chain)
+                _inherit(output, body_scopes)
                 return output
             try:
-                return _resolve_nested(output)
+                return _resolve_nested(output, scopes=body_scopes)
             except ValueError as exc:
                 raise ValueError("Unexpected function output type") from exc
         case WithStatement():
